@@ -272,6 +272,22 @@ class World:
             return self._kraus(en, [jnp.eye(d + 1, dtype=complex)], t)
         if kind == "povm_wrongsize":
             return self._povm(en, [jnp.eye(d + 1, dtype=complex)], t, False)
+        if kind in ("kraus_rect", "povm_rect"):
+            # rectangular operators whose K^dagger K still sum to the identity
+            eye = np.eye(d, dtype=complex)
+            ops = [jnp.array(eye[: d - 1, :]), jnp.array(eye[d - 1:, :])]
+            return self._kraus(en, ops, t) if kind == "kraus_rect" else self._povm(en, ops, t, False)
+        if kind.startswith("outside_"):
+            # a single subsystem named at a container it does not belong to: the composite / the envelope of t[1]
+            cont = self.handle_for(t[1]) if en == "ce" else self.env_of(t[1])
+            if kind == "outside_op":
+                g = {"P": "X", "F": "FId", "C": "X"}[self.kind[i]]
+                return cont.apply_operation(speclib.make_operation(g, self.kind[i]), o)
+            if kind == "outside_kraus":
+                return cont.apply_kraus([jnp.eye(d, dtype=complex)], o)
+            if kind == "outside_measure":
+                return cont.measure(o, separate_measurement=True, destructive=False)
+            return cont.measure_POVM([jnp.eye(d, dtype=complex)], o, destructive=False)
         if kind == "custom_wrongsize":
             m = jnp.eye(d + 1, dtype=complex)
             ty = PolarizationOperationType.Custom if self.kind[i] == "P" else CustomStateOperationType.Custom
